@@ -42,6 +42,10 @@ class Boom(Exception):
     pass
 
 
+class BoomBase(BaseException):
+    """The wrapped function fails with something that is no Exception."""
+
+
 class Sys:
     """One cache under test (asyncstdlib or functools) in one decorator form."""
 
@@ -57,7 +61,7 @@ class Sys:
             sys_.invocations.append((tuple(repr(x) for x in a), tuple((k, repr(v)) for k, v in kw.items())))
             if sys_.fail_next:
                 sys_.fail_next = False
-                raise Boom()
+                raise (BoomBase if len(sys_.invocations) % 2 == 0 else Boom)()
             if not a and not kw:
                 return None          # f() legitimately returns None: must be cached like any value
             return ("result", len(sys_.invocations))
@@ -144,7 +148,7 @@ class Sys:
                     raise res[1]
                 r = res[1]
             out = ("ok", r)
-        except Boom:
+        except (Boom, BoomBase):
             out = ("boom", None)
         except Exception as e:  # noqa: BLE001 - whatever the cache itself raises is an observation
             out = ("raised:" + type(e).__name__, None)
